@@ -163,6 +163,12 @@ PRESERVING = [
     ("C15", "P-xml-not-pretty-printed", WX,
      "        if check_validity:\n            # validate xml format\n            self.check_validity_of_commonroad_file(self._dump())\n\n        tree = etree.ElementTree(self._root_node)\n        tree.write(filename, pretty_print=True,",
      "        if check_validity:\n            # validate xml format\n            self.check_validity_of_commonroad_file(self._dump())\n\n        tree = etree.ElementTree(self._root_node)\n        tree.write(filename, pretty_print=False,", 800),
+    ("C10", "P-empty-stop-line-refs-become-none", L,
+     "                la.stop_line._traffic_sign_ref = la.stop_line.traffic_sign_ref.intersection(existing_ids)\n",
+     "                la.stop_line._traffic_sign_ref = la.stop_line.traffic_sign_ref.intersection(existing_ids) or None\n", 6000),
+    ("C10", "P-adjacency-flag-kept-after-neighbour-left", L,
+     "            la._adj_right_same_direction = (\n                None\n                if la.adj_right_same_direction is None or la.adj_right not in existing_ids\n                else la.adj_right_same_direction\n            )\n",
+     "            la._adj_right_same_direction = la.adj_right_same_direction\n", 6000),
     ("C09", "P-lanelet-id-freed-before-network-removal", S,
      "            self.lanelet_network.remove_lanelet(la.lanelet_id)\n            self._id_set.remove(la.lanelet_id)\n",
      "            self._id_set.remove(la.lanelet_id)\n            self.lanelet_network.remove_lanelet(la.lanelet_id)\n", 4000),
